@@ -200,3 +200,31 @@ Example C15_example_kernels :
   k_multiplyAndDivide 28382400000000 1000000000 90000 = Some 315360000000000000 /\
   k_track_decode 4294967290 100 5 = (89, 89, 4294967290).
 Proof. vm_compute. split; reflexivity. Qed.
+
+(* pkg/ntp: Model.encode_with IS ntp.Encode written with the kernels translated from the Go source on this run (the
+   offset addition, the seconds division, the packing secs<<32 | fractional), for every rounding of the fraction that
+   yields a uint64; the integer that Model.frac53 hands to the float64 rounding is the translated (ntp % 1e9) * (1<<32);
+   Model.decode IS ntp.Decode written with the translated seconds and the translated integer
+   ((v & 0xFFFFFFFF) * 1e9) / (1<<32) handed to the float64 rounding.  The float64 operations themselves are not
+   translated (Round53 / Float model them). *)
+Theorem C15_ntp_kernels_are_the_code :
+  (forall fr unix_ns, (forall n, u64 (fr n)) ->
+     encode_with fr unix_ns =
+     k_ntp_enc_pack (k_ntp_enc_secs (k_ntp_enc_ntp unix_ns)) (fr (k_ntp_enc_ntp unix_ns mod second_ns))) /\
+  (forall ntp, u64 ntp ->
+     frac53 (ntp mod second_ns) = w64 (round_half_away (fdiv (of_int (k_ntp_enc_fracin ntp)) (of_int second_ns)))) /\
+  (forall v, u64 v ->
+     decode v = k_ntp_dec_secs v * second_ns + round_half_away (of_int (k_ntp_dec_fracin v))).
+Proof.
+  split; [exact ntp_encode_kernels_are_the_code|]. split; [exact ntp_frac_input_is_the_code|exact ntp_decode_kernels_are_the_code].
+Qed.
+Print Assumptions C15_ntp_kernels_are_the_code.
+
+(* 2013-04-15 11:15:18 UTC (the library's own test vector b): 1366024518 s + 2208988800 s, packed in the high word;
+   half a second is 2^31 * 10^9 / 2^32 ns *)
+Example C15_example_ntp_kernels :
+  k_ntp_enc_secs (k_ntp_enc_ntp 1366024518000000000) = 3575013318 /\
+  k_ntp_enc_pack 3575013318 0 = 15354565283574448128 /\
+  k_ntp_dec_secs 15354565283574448128 = 1366024518 /\
+  k_ntp_dec_fracin 2147483648 = 500000000 /\ k_ntp_enc_fracin 3575013318500000000 = 2147483648000000000.
+Proof. vm_compute. repeat split. Qed.
